@@ -585,9 +585,16 @@ class Processes:
             # command per reactor loop iteration via received_async() to match sync behavior
             fd = self._get_stdout(process_name).fileno()
             raw_data = os.read(fd, 16384)
-            buf = str(raw_data, 'ascii')
+            undecodable: UnicodeDecodeError | None = None
+            try:
+                buf = str(raw_data, 'ascii')
+            except UnicodeDecodeError as exc:
+                # the lines in front of the byte are complete commands: whether they are executed must not depend on
+                # this read having brought the byte as well (delivered one read later they were executed)
+                buf = str(raw_data[: exc.start], 'ascii')
+                undecodable = exc
 
-            if buf == '' and poll is not None:
+            if raw_data == b'' and poll is not None:
                 # Process exited - EOF received
                 # CRITICAL: Remove reader BEFORE calling _handle_problem to avoid race
                 if self._async_mode and self._loop:
@@ -617,6 +624,15 @@ class Processes:
             # yield them ONE at a time to ensure proper interleaving with message sending
             while '\n' in raw:
                 line, raw = raw.split('\n', 1)
+                if len(line) > self.MAX_COMMAND_SIZE:
+                    # the same line is refused above when its newline comes with a later read
+                    log.error(
+                        lazymsg('api.command.oversized process={pn} size={size}', pn=process_name, size=len(line)),
+                        'processes',
+                    )
+                    self._buffer.pop(process_name, None)
+                    self._handle_problem(process_name)
+                    return
                 line = line.rstrip()
 
                 if line.startswith('debug '):
@@ -631,6 +647,9 @@ class Processes:
                     self._command_queue.append((process_name, formated(line)))
 
             self._buffer[process_name] = raw
+
+            if undecodable is not None:
+                raise undecodable
 
             # Check if process exited
             if poll is not None:
